@@ -138,6 +138,13 @@ CHECKS.update(
         note="Measurement pickling and ndarray magnitudes outside; exponents in [-2,2] realised.",
         design="4/C18",
     ),
+    C19=dict(
+        text="Measurement construction, accessors, conversion and arithmetic of the real code with symbolic nominal value and standard deviation, with ufloat replaced by an affine model: all constructor forms report back "
+        "(value, error, rel); a negative error is rejected exactly when e < 0 (solver-partitioned); conversion maps the nominal value like a plain quantity and scales the standard deviation by |slope| (offset units included), rel invariant under "
+        "multiplicative conversion; scalar multiples, sums and differences of independent measurements follow the unit rules with first-order propagation; '+/-' and '±' texts with symbolic literals parse to that measurement.",
+        note="PARTIAL, UNDER A STUB: the real uncertainties package (correlations, non-linear propagation, formatting, 8.0(4) notation) is outside; counterexamples are replayed with the real package on the float registry with a tolerance.",
+        design="4/C19",
+    ),
     C20=dict(
         text="Every entry of an independently written table of standard values (about 230 units/constants, 32 prefixes, 5 temperature scales) is compared with the real registry "
         "for all magnitudes x (linear/affine map proved by z3), plus symbol and dimensionality. The solver's role is small; the strength is the independent table.",
